@@ -342,7 +342,9 @@ class Gen(object):
         if kind == 'bits' and size['ext'] and lo == hi and 'bits_fixed_ext_outside' in self.o.avoid:
             return lo
         if size['ext'] and r.random() < .25 and not (kind and kind + '_ext_outside' in self.o.avoid):
-            return r.choice([x for x in [lo - 1, hi + 1, hi + 3] if x >= 0])
+            # known finding per-size-extension-over-64k: no out-of-root length of 16384 or more for per/uper
+            cap_out = 16383 if 'size_ext_over_16k' in self.o.avoid else None
+            return r.choice([x for x in [lo - 1, hi + 1, hi + 3] if x >= 0 and (cap_out is None or x <= cap_out)] or [lo])
         if hi is None:
             return lo + r.choice([0, 1, 2, cap])
         if hi - lo > 300:
